@@ -436,7 +436,16 @@ impl Gen {
                 0 | 1 => {
                     // (C17 mode: declarations made inside an iteratee expression are not relied upon
                     // afterwards - freeze treats them as loop-local, known finding F30)
-                    let lst = self.gen_iteratee(d);
+                    let mut lst = self.gen_iteratee(d);
+                    if self.loop_depth > 0 && self.rng.chance(1, 8) {
+                        // a `continue` / `break` evaluated by a header clause is not absorbed by THIS loop: it
+                        // leaves it and is received by the enclosing one
+                        self.feat("for-clause-exit");
+                        let n = self.rng.below(self.loop_depth as u64) as usize;
+                        let c = self.conditional(|g| g.gen_cond(d));
+                        let exit = if self.rng.chance(2, 3) { Expr::Continue(n) } else { Expr::Break(n, None) };
+                        lst = Expr::If(b(c), b(exit), Some(b(lst)));
+                    }
                     if self.rng.chance(1, 4) {
                         self.feat("for-item");
                         let (k, v) = (self.fresh(), self.fresh());
@@ -467,7 +476,14 @@ impl Gen {
                 }
                 _ => {
                     self.feat("for-guard");
-                    let c = self.gen_cond(d);
+                    let mut c = self.gen_cond(d);
+                    if self.loop_depth > 0 && self.rng.chance(1, 5) {
+                        self.feat("for-clause-exit");
+                        let n = self.rng.below(self.loop_depth as u64) as usize;
+                        let c2 = self.conditional(|g| g.gen_cond(d));
+                        let exit = if self.rng.chance(2, 3) { Expr::Continue(n) } else { Expr::Break(n, None) };
+                        c = Expr::If(b(c2), b(exit), Some(b(c)));
+                    }
                     its.push(ForIt::Guard(c));
                 }
             }
@@ -802,7 +818,7 @@ impl Gen {
     // ---------------------------------------------------------------- statements
     pub fn gen_stmt(&mut self, d: u32) -> Expr {
         self.budget -= 1;
-        let choice = if self.budget <= 0 { self.rng.below(4) } else { self.rng.below(30) };
+        let choice = if self.budget <= 0 { self.rng.below(4) } else { self.rng.below(32) };
         match choice {
             0 | 1 => {
                 let x = self.fresh();
@@ -903,6 +919,78 @@ impl Gen {
                                 false,
                             )),
                         ),
+                    ],
+                    true,
+                )
+            }
+            30 if d > 0 => {
+                // c := 0; while ((m := c; c = c + 1; m < K)) body-using-m
+                // the condition and the body of an iteration share one fresh scope: a name declared by
+                // the condition is a loop local (and may shadow an outer variable of the same name)
+                self.feat("while-cond-declares");
+                let c = self.fresh();
+                let k = 1 + self.rng.below(3) as i64;
+                self.declare(&c, Ty::Int);
+                self.readonly.insert(c.clone());
+                let m = match self.pick_var(&Ty::Int) {
+                    Some(v) if v != c && !self.readonly.contains(&v) && self.rng.chance(1, 2) => {
+                        self.feat("while-cond-declares-shadowing");
+                        v
+                    }
+                    _ => self.fresh(),
+                };
+                let body = self.in_frame(|g| {
+                    g.declare(&m, Ty::Int);
+                    g.loop_depth += 1;
+                    let mut xs = vec![Expr::Call(b(Expr::Ident("print".into())), vec![Expr::Ident(m.clone())])];
+                    xs.push(g.gen_block(d - 1));
+                    g.loop_depth -= 1;
+                    Expr::Seq(xs, false)
+                });
+                let cond = Expr::Seq(
+                    vec![
+                        Expr::Declare(Pat::Ident(m.clone()), b(Expr::Ident(c.clone()))),
+                        Expr::Assign(c.clone(), b(Expr::Op("+".into(), b(Expr::Ident(c.clone())), b(Expr::Int(1))))),
+                        Expr::Op("<".into(), b(Expr::Ident(m.clone())), b(Expr::Int(k))),
+                    ],
+                    false,
+                );
+                Expr::Seq(vec![Expr::Declare(Pat::Ident(c.clone()), b(Expr::Int(0))), Expr::While(b(cond), b(body))], true)
+            }
+            31 if d > 0 => {
+                // a local recursive function: f := \n -> if (n <= 0 or n > 6) base else n + f(n - 1)
+                // (the declaration binds f before its right-hand side is resolved, so the inner f is the
+                // function itself, also when an outer f exists)
+                self.feat("recursive-local-function");
+                let cur: Vec<String> = self.frames.last().unwrap().iter().map(|v| v.name.clone()).collect();
+                let f = match self.pick_var(&Ty::Fun1) {
+                    Some(v) if !cur.contains(&v) && !self.readonly.contains(&v) && self.rng.chance(1, 2) => {
+                        self.feat("recursive-local-function-shadowing");
+                        v
+                    }
+                    _ => self.fresh(),
+                };
+                let n = self.fresh();
+                let base = match self.pick_var(&Ty::Int) {
+                    Some(v) if self.rng.chance(1, 2) => Expr::Ident(v),
+                    _ => Expr::Int(self.small_int()),
+                };
+                let stop = Expr::Or(
+                    b(Expr::Op("<=".into(), b(Expr::Ident(n.clone())), b(Expr::Int(0)))),
+                    b(Expr::Op(">".into(), b(Expr::Ident(n.clone())), b(Expr::Int(6)))),
+                );
+                let rec = Expr::Op(
+                    "+".into(),
+                    b(Expr::Ident(n.clone())),
+                    b(Expr::Call(b(Expr::Ident(f.clone())), vec![Expr::Op("-".into(), b(Expr::Ident(n.clone())), b(Expr::Int(1)))])),
+                );
+                let lam = Expr::Lambda(vec![Param { name: n, dflt: None, splat: false, ann: None }], b(Expr::If(b(stop), b(base), Some(b(rec)))));
+                self.declare(&f, Ty::Fun1);
+                let arg = Expr::Int(1 + self.rng.below(5) as i64);
+                Expr::Seq(
+                    vec![
+                        Expr::Declare(Pat::Ident(f.clone()), b(lam)),
+                        Expr::Call(b(Expr::Ident("print".into())), vec![Expr::Call(b(Expr::Ident(f)), vec![arg])]),
                     ],
                     true,
                 )
